@@ -133,8 +133,9 @@ def run_one(choices, params):
         # ---- oracle ----------------------------------------------------------------------------------
         if conn._send_queue:
             raise core.Violation("stranded", "all senders returned but %d message(s) are still queued" % len(conn._send_queue))
-        if conn._sendlock.locked():
+        if not conn._sendlock.acquire(False):
             raise core.Violation("lock-left-held", "send lock still held after all senders returned")
+        conn._sendlock.release()
         stream = b"".join(ch for _, ch in writes)
         p = RC.FrameParser()
         frames = p.feed(stream)
